@@ -209,7 +209,7 @@ class C05(Prop):
             # in the middle and last; whole, split inside the character, and after an empty first fragment
             for ch in gen.SPECIAL_CHARS:
                 for text in (ch, ch + ch, ch + "{\"a\": 1}", "x" + ch + "y", "end" + ch):
-                    for carriage in ("plain", "deflate_uncompressed", "deflate_compressed", "close_reason"):
+                    for carriage in ("plain", "plain_offered", "deflate_uncompressed", "deflate_compressed", "close_reason"):
                         for frag, seg in (([], "whole"), ([1], "whole"), ([0, 2], "bytewise")):
                             yield {"base": ["str", text], "edits": [], "frag": frag, "inter": [], "carriage": carriage,
                                    "seg": seg, "before": []}
@@ -218,7 +218,7 @@ class C05(Prop):
             # with the first fragment of that length ending inside a character; one invalid byte first / middle / last
             # (layer 3 then checks it is reported as soon as it has arrived, however long the frame)
             sizes = [125, 126, 127, 65535, 65536, 65537, 70000, 131072]
-            for carriage in ("plain", "deflate_uncompressed"):
+            for carriage in ("plain", "plain_offered", "deflate_uncompressed"):
                 for n in sizes:
                     yield {"base": ["fill", n], "edits": [], "frag": [], "inter": [], "carriage": carriage, "seg": "whole",
                            "before": []}
@@ -251,7 +251,9 @@ class C05(Prop):
             "edits": st.lists(edit, max_size=3),
             "frag": gen.frag_cuts(max_pos=3000),
             "inter": st.lists(st.tuples(st.integers(0, 8), st.sampled_from(["ping", "pong"])).map(list), max_size=2),
-            "carriage": st.sampled_from(["plain", "plain", "plain", "deflate_uncompressed",
+            # ("plain_offered": the client offered permessage-deflate, the server did not accept it - the connection is
+            # an uncompressed one in every respect)
+            "carriage": st.sampled_from(["plain", "plain", "plain", "plain_offered", "deflate_uncompressed",
                                          "deflate_compressed", "close_reason"]),
             "seg": gen.segmentation(),
             # an earlier connection in this process (same WebSocket object or another) and how it ended
@@ -300,7 +302,7 @@ class C05(Prop):
         else:
             frames = frames_for(payload, case)
         split_char = False
-        if valid and carriage in ("plain", "deflate_uncompressed"):
+        if valid and carriage in ("plain", "plain_offered", "deflate_uncompressed"):
             for fb, off, ln in frames:
                 if off is not None and 0 < off < len(payload) and (payload[off] & 0xC0) == 0x80:
                     split_char = True
@@ -317,7 +319,7 @@ class C05(Prop):
         nontrivial = (not valid) or split_char
         scn = build.scenario(
             [["wait_request"], ["stream", [["reply", reply], ["bytes", data]], seg, 0.0], ["eof", 0.0]],
-            ws_opts={"compress": True} if deflate else None)
+            ws_opts={"compress": True} if (deflate or carriage == "plain_offered") else None)
         tr = simnet.run_scenario(scn)
         names = tr.names()
         if tr.hang:
@@ -352,7 +354,7 @@ class C05(Prop):
                 return failed("no_protocol_error", "invalid UTF-8 %s (%s): %d ProtocolError events; events %s" % (
                     payload[:40].hex(), carriage, len(pes), names), labels, nontrivial)
         # layer 3: fail fast
-        if (not valid) and k is not None and carriage == "plain":
+        if (not valid) and k is not None and carriage in ("plain", "plain_offered"):
             labels.add("failfast_checked")
             upto = len(pre)
             for fb, off, ln in frames:
@@ -364,7 +366,8 @@ class C05(Prop):
             seg2 = effective_seg(case["seg"], reply_len + len(cut))
             scn2 = build.scenario(
                 [["wait_request"], ["stream", [["reply", None], ["bytes", cut]], seg2, 0.0]],
-                connect_opts={"poll": 5.0, "ping_rate": 0}, horizon=1.0)
+                connect_opts={"poll": 5.0, "ping_rate": 0}, horizon=1.0,
+                ws_opts={"compress": True} if carriage == "plain_offered" else None)
             tr2 = simnet.run_scenario(scn2)
             if tr2.hang:
                 return failed("hang", tr2.hang, labels, nontrivial)
